@@ -32,6 +32,7 @@ func runC04(c *Ctx) {
 	r.Rule("C04.ascii-before-fold", "for every strings.ToLower/ToUpper in package bech32, on every call path from Encode/Decode the argument is proven ASCII (whole-argument guard loop, or built only from validated parts, ASCII constants and the ASCII charset table)")
 	r.Rule("C04.charset", "charset.enc = BIP-173 alphabet; decMap = inverse with 0xFF elsewhere; decode rejects exactly the sentinel and hands on values < 32")
 	r.Rule("C04.regroup-bits", "for each data length L in 0..90: L mod 8 in {1,3,6} -> error; otherwise output bit (8i+r) = input symbol bit at MSB-first stream position 8i+r, the padding bits are exactly the bits tested zero, count = 5L/8, no index out of range")
+	r.Rule("C04.reencode", "the obligations of C05 on Encode (regroup-bits for every length, checksum flow, charset walk, exits): an accepted string re-encodes to its own lower-case form only if Encode is the inverse the statement names")
 	r.Rule("C04.offset-range", "every SyntaxError.Offset value lies in [0, len(s)] for all (len(s), separator position) reaching it")
 	r.Rule("C04.no-panic", "no explicit panic reachable from Decode; slice bounds in Decode hold for all (len(s), separator position) reaching them")
 	r.Assume("strings.LastIndex(s, sep) returns -1 or an index < len(s); strings.ToLower preserves length and indices for ASCII input; fmt/errors as documented")
@@ -273,7 +274,18 @@ func runC04(c *Ctx) {
 
 	// ---------- offsets and bounds by value-set analysis over (len, separator position)
 	c04Bounds(c, fn, b)
+
+	// ---------- "every accepted string re-encodes to its own lower-case form": Encode's obligations (C05) are part of
+	// this property too — the regrouping of bytes into symbols for every length, the checksum flow, the charset walk
+	if !c04Nested {
+		c04Nested = true
+		reKey(c, "C05.", "C04.reencode.", func() { runC05(c) })
+		c04Nested = false
+	}
 }
+
+// c04Nested guards against running C05 (which itself borrows C04's case rule) more than one level deep.
+var c04Nested bool
 
 // caseGate resolves the case-validation routine tested on the argument of b's function and the form of its verdict:
 // an error (`f(s) == nil` accepts), or the offending position with -1 for a consistent case (`f(s) < 0` accepts).
